@@ -824,13 +824,16 @@ def check_flags(repo, ctx, budget=None):
                     ds = diff_exact(exp, canon(c))
                     if not ds:
                         continue
-                    kinds = {d['kind'] for d in ds}
-                    if ico and kinds == {'class-origin-wrong'} and all(d['observed'] is None for d in ds):
-                        # _imeth_EnumerateClasses looks the flag up under a misspelled key
+                    lost = [d for d in ds if d['kind'] == 'class-origin-wrong' and d['observed'] is None]
+                    oc = canon(c)
+                    present = sum(1 for k in ('props', 'meths') for ln in exp[k] if ln in oc[k])
+                    if ico and lost and len(lost) == present:
+                        # _imeth_EnumerateClasses looks the flag up under a misspelled key: always off
                         R.violation('known:enumerateclasses-includeclassorigin-ignored',
-                                    **repo.info(cls=c.classname, flags=kw, diff=ds[:2]))
-                    else:
-                        R.violation('enumerateclasses-flags:' + sorted(kinds)[0],
+                                    **repo.info(cls=c.classname, flags=kw, diff=lost[:2]))
+                        ds = [d for d in ds if d not in lost]
+                    if ds:
+                        R.violation('enumerateclasses-flags:' + sorted({d['kind'] for d in ds})[0],
                                     **repo.info(cls=c.classname, flags=kw, diff=ds[:3]))
 
 
